@@ -177,5 +177,21 @@ def run_on(fb, chk, tag=""):
     chk.check(len(hp_) >= 1 and not skipped, "E3", tag + "one-worker-per-mask", "a worker handler is created for every mask, in mask order",
               "VhostUserHandler::new can skip creating the worker for a mask (%d handler pushes, %d skippable): `handlers[i]` no longer "
               "belongs to `queues_per_thread[i]`, kicks are routed to the wrong worker" % (len(hp_), len(skipped)), hn.loc())
+    # the list handed to the worker is exactly the one built by that selection (no shortcut that passes the whole ring list)
+    for bb, t, c in sites(hn, name="new"):
+        if "VringEpollHandler" not in (c.get("self_ty") or resolved(c).get("self_ty") or c.get("path") or ""):
+            continue
+        lst = hmn.sym.arg_terms(bb)[1]
+        alts = list(lst[2]) if lst[0] == "phi" else [lst]
+        roots = []
+        for a_ in alts:
+            r_ = a_
+            while r_[0] in ("ref", "deref"):
+                r_ = r_[1]
+            roots.append(r_[1] if r_[0] == "call" else show(r_)[:30])
+        okl = all(x in ("new", "with_capacity") for x in roots)
+        chk.check(okl, "E3", tag + "slice-source", "worker ring list = the freshly built selection",
+                  "a worker can be given a ring list obtained by %s instead of the per-mask selection: the element at an event id is then "
+                  "not the queue the id was computed for" % [x for x in roots if x not in ("new", "with_capacity")], hn.loc(t["line"]))
     chk.check(ok, "E3", tag + "slice", "a ring joins a thread's slice iff its bit is set in the thread's mask (in queue order)",
               "per-thread ring slices are not selected by the mask bit", hn.loc())
